@@ -59,16 +59,18 @@ def execute(c):
             if dims[0] == "time" and len(xi) > 4:
                 put("acc_dask_timechunked", lambda: da.chunk({"time": 2}).hdc.algo.autocorr().compute())
 
-            def joint(da=da):
+            def joint(first, da=da):
                 # the same dask array under ANOTHER nodata attribute (one of its valid observations) evaluated in the same graph:
-                # each lazy result belongs to its own attribute
+                # each lazy result belongs to its own attribute, whichever of the two enters the graph first
                 import dask
 
                 dl = da.chunk({"y": 1, "x": 1})
                 other = next((int(v) for v in vals if v is not None), 1)
-                a, _b = dask.compute(dl.hdc.algo.autocorr(), dl.assign_attrs(nodata=other).hdc.algo.autocorr(), scheduler="synchronous")
-                return a
-            put("acc_dask_joint_" + dims[0], joint)
+                mine, twin = dl.hdc.algo.autocorr(), dl.assign_attrs(nodata=other).hdc.algo.autocorr()
+                res = dask.compute(*((mine, twin) if first else (twin, mine)), scheduler="synchronous")
+                return res[0 if first else 1]
+            put("acc_dask_joint1_" + dims[0], lambda: joint(True))
+            put("acc_dask_joint2_" + dims[0], lambda: joint(False))
         # cubes in which a spatial axis is as long as the time axis (ny == nt, nx == nt): the layout is a matter of
         # dimension NAMES; the series sits at one pixel among rolled copies of itself
         n = len(xi)
